@@ -127,7 +127,7 @@ check("C01",
       rule="every history of type-constructor requests (22 request forms: pointer, reference, rvalue reference, array, "
            "qualified x7 sets, function with/without throws and transfer, product/sum from a warehouse and from an existing "
            "sequence, forall, pointer-to-member, tor, as-type of expression / expression+transfer / identifier, three transfer "
-           "constructors) with operands from {int, char, class C, results of earlier steps}: full alphabet to depth 2 (quick) / 3 "
+           "constructors, and one request that must be refused -- an empty qualifier set -- after which everything is answered as before) with operands from {int, char, class C, results of earlier steps}: full alphabet to depth 2 (quick) / 3 "
            "(thorough), compact alphabet to depth 3 / 4, each under ascending, descending and alternating heap-address orders; "
            "per step the model (key with normal forms -> id) decides 'must be node #k' or 'must be a node never seen'; all requests "
            "re-issued in 3 orders at the end; plus long histories of 1024 (4096) keys per constructor family in 3 insertion orders "
